@@ -220,14 +220,15 @@ def atLevel (a : RQ) (l : Nat) : RQ := ⟨a.ci, a.p.atLevel l⟩
 /-- concatenate the rows of a `Q` part and a `P` part -/
 def joinQP (a b : RQ) : RQ := ⟨a.ci, { qs := a.p.qs ++ b.p.qs, c := a.p.c ++ b.p.c }⟩
 
-/-- `ringqp.Ring.ExtendBasisSmallNormAndCenter`: the sign is read off row 0 (`> q₀/2` means negative),
-    the magnitude is copied into every `P` row (`p − |c|` when negative, uint64 arithmetic, then canonical
-    reduction mod p). -/
+/-- `ringqp.Ring.ExtendBasisSmallNormAndCenter`: the value of each coefficient is read off row 0 (`> q₀/2`
+    means negative) and its magnitude is reduced into every `P` row (`p − (|c| mod p)` when negative, 0
+    staying 0).  Precondition for the result to be the same integer polynomial: norm `< q₀/2`
+    (`NewParameters` rejects distributions that do not fit when P is present, fix C03-10). -/
 def extSmall (ps : List Nat) (x : RQ) : RQ :=
   let q0 := x.p.qs.headD 1
   let row0 := x.p.c.headD []
   let prow := fun (p : Nat) => row0.map fun (c : Nat) =>
-    if c > q0 / 2 then ((p + Rword - (q0 - c)) % Rword) % p else c % p
+    if c > q0 / 2 then (p - (q0 - c) % p) % p else c % p
   ⟨x.ci, { qs := x.p.qs ++ ps, c := x.p.c ++ ps.map prow }⟩
 
 /-- `BasisExtender.ModDownQPtoQ`: `x` has `nQ` rows over Q followed by rows over P; the result is
